@@ -3354,6 +3354,9 @@ func (t *transport) RoundTrip(hc *HostClient, req *Request, resp *Response) (ret
 
 	br := hc.AcquireReader(conn)
 	err = resp.ReadLimitBody(br, hc.MaxResponseBodySize)
+	// SkipBody was forced for a HEAD request only; left set on the caller's resp it would make
+	// the next, non-HEAD request done with the same resp leave its body on the connection.
+	resp.SkipBody = customSkipBody
 	if err != nil {
 		hc.ReleaseReader(br)
 		hc.CloseConn(cc)
